@@ -26,9 +26,7 @@ def gcmBlockSizeExpr : String := "aes.BlockSize"
 def gcmMaxDataSizeExpr : String := "((1<<32)-2)*gcmBlockSize"
 def aesGCMCipherFactorySkeleton : List String := ["aes.NewCipher", "if(err!=nil){", "return", "}", "cipher.NewGCM", "return^"]
 def cryptoEncryptSkeleton : List String := ["c", "if(err!=nil){", "return", "}", "if(len(data)>gcmMaxDataSize){", "return", "}", "aeadCipher.Overhead", "if(gcmTagSize!=aeadCipher.Overhead()){", "return", "}", "aeadCipher.NonceSize", "if(gcmNonceSize!=aeadCipher.NonceSize()){", "return", "}", "aeadCipher.NonceSize", "internal.FillRandom", "aeadCipher.Seal", "return"]
-def cryptoEncryptSlices : List String := ["size:=len(data)+gcmTagSize+gcmNonceSize", "cipherAndNonce:=make([]byte,size)", "noncePos:=len(cipherAndNonce)-aeadCipher.NonceSize()", "cipherAndNonce[noncePos:]", "cipherAndNonce[:0]", "cipherAndNonce[noncePos:]"]
 def cryptoDecryptSkeleton : List String := ["c", "if(err!=nil){", "return", "}", "aeadCipher.NonceSize", "if(len(data)<aeadCipher.NonceSize()){", "return", "}", "aeadCipher.NonceSize", "aeadCipher.Open", "if(err!=nil){", "fmt.Errorf", "return^", "}", "return"]
-def cryptoDecryptSlices : List String := ["noncePos:=len(data)-aeadCipher.NonceSize()", "data[noncePos:]", "data[:noncePos]"]
 def AES256KeySize : Nat := 32
 def staticKMSKeySize : Nat := 32
 def staticKMSEncryptKeySkeleton : List String := ["func{", "s.Crypto.Encrypt", "return^", "}", "internal.WithKeyFunc", "if(err!=nil){", "return", "}", "return"]
